@@ -523,7 +523,8 @@ func genC03(c *Cfg, emit func([]string)) {
 					}
 					// re-target: same bytes sent to another chaincode / channel
 					for _, env := range [][2]string{{"other", "vt"}, {"vt", "other"}, {"v", "tvt"}, {"vtv", "t"},
-						{"VT", "vt"}, {"vt", "VT"}, {"Vt", "vT"}, {"vt_", "vt"}, {"vt", "vt2"}, {"ｖｔ", "vt"}} {
+						{"VT", "vt"}, {"vt", "VT"}, {"Vt", "vT"}, {"vt_", "vt"}, {"vt", "vt2"}, {"ｖｔ", "vt"},
+						{"", "vt"}, {"vt", ""}, {"", ""}} { // (the peer's proposal names no chaincode / no channel at all)
 						y := mk(route, kt, nsign, ab[0], ab[1])
 						t := clone(y.r, "retarget")
 						t.envcc, t.envch = env[0], env[1]
